@@ -230,14 +230,38 @@ def run_harness(prop, tier, seed, extra=None, timeout=None):
         z = zones[int(seed) % len(zones)]
         if z == "UTC" or os.path.exists("/usr/share/zoneinfo/" + z):
             env["TZ"] = z
+    import signal
+    p = subprocess.Popen(cmd, stdout=subprocess.PIPE, stderr=subprocess.STDOUT, text=True, env=env, start_new_session=True)
     try:
-        p = subprocess.run(cmd, stdout=subprocess.PIPE, stderr=subprocess.STDOUT, text=True, timeout=timeout, env=env)
-        rc, text = p.returncode, p.stdout
-    except subprocess.TimeoutExpired as e:
-        rc, text = 124, "harness timeout"
+        text, _ = p.communicate(timeout=timeout)
+        rc = p.returncode
+    except subprocess.TimeoutExpired:
+        # ask the Go runtime for the goroutine dump (where is it stuck?), then make sure the whole process group goes
+        try:
+            os.killpg(p.pid, signal.SIGQUIT)
+            text, _ = p.communicate(timeout=20)
+        except Exception:
+            text = ""
+        try:
+            os.killpg(p.pid, signal.SIGKILL)
+        except Exception:
+            pass
+        try:
+            t2, _ = p.communicate(timeout=20)
+            text = (text or "") + (t2 or "")
+        except Exception:
+            pass
+        rc, text = 124, "harness timeout after %ss\n" % timeout + (text or "")
     subprocess.run(["rm", "-rf", work])
     if rc != 0 or not os.path.exists(out):
-        return None, f"harness exited {rc}: {text[-3000:]}"
+        logp = os.path.join(BUILD, f"harness_{prop}_failed.log")
+        try:
+            open(logp, "w").write(text or "")
+        except Exception:
+            pass
+        frames = [l.strip() for l in (text or "").splitlines() if ("vharness/" in l or "main." in l) and "(" in l and not l.startswith("\t")]
+        where = ("; harness frames: " + " | ".join(dict.fromkeys(frames[:12]))) if rc == 124 and frames else ""
+        return None, f"harness exited {rc}{where}: {text[-1500:]}"
     s = json.load(open(out))
     os.remove(out)
     return s, None
@@ -282,7 +306,7 @@ def main():
     if a.replay:
         extra += ["-replay", a.replay]
     summary, herr = (None, "not run") if any(e.startswith("harness") for e in go_errs) else \
-        run_harness(prop, tier, seed, extra, timeout=3600 if tier == "quick" else 6 * 3600)
+        run_harness(prop, tier, seed, extra, timeout=int(os.environ.get("VERIF_HARNESS_TIMEOUT", 1200 if tier == "quick" else 6 * 3600)))
     if herr:
         failures.append("correspondence harness did not complete: " + herr)
         summary = {"evaluations": 0, "distinct_nontrivial": 0, "rule": "", "samples": [], "divergences": [],
@@ -306,7 +330,7 @@ def main():
     searched = 0
     if failures and not fresh and not herr and not a.replay:
         for extra_seed in (seed + 1000, seed + 2000, seed + 3000):
-            s2, e2 = run_harness(prop, tier, extra_seed, ["-scale", "2"], timeout=3600)
+            s2, e2 = run_harness(prop, tier, extra_seed, ["-scale", "2"], timeout=1800)
             searched += 1
             if s2:
                 for v in s2["violations"]:
